@@ -15,6 +15,7 @@ from ..common import mk_result, viol
 from ..update_engine import run_history
 
 ID = 'C10'
+NEEDS_GPG = True
 LEVEL = 'fault_enumeration'
 FAMILIES = ('own',)
 NO_SHRINK = ('hashes',)
@@ -39,6 +40,9 @@ MAX_PLANS = 400
 def generate(rng, tier, idx):
     sc = GU.gen_history(rng, {'tree': {'p_dist_same_name': 0.35, 'p_timestamp': 0.4}, 'p_sibling_oob': 0.2})
     sc['prop'] = ID
+    if sc['manifests'] and rng.random() < 0.08:
+        # a validly signed top-level Manifest; all loaders of the history share one OpenPGP environment object
+        sc['signed_top'] = True
     files = [t['p'] for t in sc['tree'] if t.get('k', 'file') == 'file']
     for r in sc['rounds']:
         pre = []
